@@ -41,7 +41,7 @@ theorem applyPrefix_dir (w : World) (dir : String) (d : DirSt) (hd : w.get dir =
 /-- hint-path `Open` when adoption (of whatever is left to adopt) produces the merged directory -/
 theorem open_hint_adopted (s0 : St) (dir : String) (cfg : Cfg) (d D' : DirSt) (W' : World) (n a : Nat)
     (gm hiG : GDir) (mdata hdata : List (Nat × FileSt))
-    (hdb : s0.db = none) (hcfg : cfg.fileSize > 0) (hd : s0.world.get dir = some d) (hl : d.locked = false)
+    (hdb : s0.db = none) (hcfg : cfg.Valid) (hd : s0.world.get dir = some d) (hl : d.locked = false)
     (hadopt : adopt s0.world dir = (W', n)) (hD' : W'.get dir = some D') (hDd : D'.data = mdata ++ hdata)
     (hhint : D'.hint = some (hintBytes gm))
     (hM : Merged gm) (hF : HintFits gm) (hids : gm.map (·.1) = List.range gm.length)
@@ -201,7 +201,7 @@ theorem mergeMid_spec {s : St} {db : DB} {g : GDir} (hinv : Inv s db g) (order :
     ghost directory and the merge directory has no marker -/
 theorem open_dead_MBase {s : St} {db : DB} {g : GDir} (hinv : Inv s db g) {W : World} {sm : St} {m : MergeSt}
     {d1 : DirSt} (hW : W.get db.dir = some d1) (hm1 : Matches d1.data (g ++ [(db.activeId + 1, [])]))
-    (hB : MBase W (rotDB db) sm m) (cfg' : Cfg) (hcfg : cfg'.fileSize > 0) :
+    (hB : MBase W (rotDB db) sm m) (cfg' : Cfg) (hcfg : cfg'.Valid) :
     ∃ s' db', openDB ⟨dead sm.world db.dir, none⟩ db.dir cfg' = (s', .ok) ∧ s'.db = some db' ∧
       db'.dir = db.dir ∧ db'.index = db.index ∧
       Inv s' db' (g ++ [(db.activeId + 1, [])]) ∧ (∀ k, absGet s' db' k = absGet s db k) ∧
